@@ -77,7 +77,7 @@ package cram
 //@ trusted func ext:encoding/binary.littleEndian.Uint32
 //@   requires len(b) >= 4
 //@ trusted func ext:github.com/biogo/hts/sam.Header.UnmarshalText
-//@   modifies all(bh)
+//@   modifies all(bh), objects(sam.Reference)
 //@ func Slice.readFrom
 //@   mode bv
 //@   anymode
